@@ -170,9 +170,13 @@ func TestDBOpts(t *testing.T) {
 	if _, err := sender.Trigger(ctx, fx.ActivationBlock, ids, TriggerExtra{}); err == nil {
 		t.Error("second trigger for the same identities did not report that the shares exist")
 	}
-	for name, opts := range map[string]DBOpts{
-		"not-a-keyper": {NotAKeyper: true}, "no-dkg-result": {NoDKGResult: true}, "failed-dkg": {FailedDKG: true}, "restarted-dkg": {RestartedDKG: true},
-	} {
+	for _, c := range []struct {
+		name string
+		opts DBOpts
+	}{{"not-a-keyper", DBOpts{NotAKeyper: true}}, {"no-dkg-result", DBOpts{NoDKGResult: true}}, {"failed-dkg", DBOpts{FailedDKG: true}},
+		{"restarted-dkg", DBOpts{RestartedDKG: true}}} {
+		// (DBOpts.NotStarted changes nothing: GetBatchConfig does not look at tendermint_batch_config.started)
+		name, opts := c.name, c.opts
 		n, err := NewNode(ctx, fx, 1, Core, opts)
 		if err != nil {
 			t.Fatal(err)
@@ -180,7 +184,7 @@ func TestDBOpts(t *testing.T) {
 		if d := n.DeliverMsg(ctx, out[0]); d.Validation != pubsub.ValidationReject || d.Handled || d.Panic != "" {
 			t.Errorf("%s: validation %v handled=%v panic=%q, want reject", name, d.Validation, d.Handled, d.Panic)
 		}
-		if _, err := n.Trigger(ctx, fx.ActivationBlock, ids, TriggerExtra{}); err == nil && name != "restarted-dkg" {
+		if _, err := n.Trigger(ctx, fx.ActivationBlock, ids, TriggerExtra{}); err == nil {
 			t.Errorf("%s: trigger produced shares", name)
 		}
 		n.Close()
